@@ -71,23 +71,27 @@ Section Trace.
 
   (* ---- streams ---- *)
   (* [v] does not differ from what the subscriber holds, as far as the property is concerned: the
-     configured equivalence decides; a model without one leaves only identical values undecided *)
-  Definition unchanged (last : option M) (v : M) : bool :=
+     configured equivalence decides against the last delivered message; a model without one leaves
+     only identical values undecided.  A subscriber that has not been sent anything yet (updates-only)
+     holds nothing, but an Update that leaves the register as it was when the stream was opened
+     ([base]) has not changed the value either *)
+  Definition unchanged (base last : option M) (v : M) : bool :=
     match equiv with
     | Some cmp => cmp last (Some v)
     | None => option_eqb m_eqb last (Some v)
-    end.
+    end
+    || match last with None => option_eqb m_eqb base (Some v) | Some _ => false end.
 
   (* the stream after its first value, against the (projected) responses of the successful Updates
      issued while it was open: every one of them that changes the value must be the next message;
      one that does not may be delivered or not; nothing else may appear *)
-  Fixpoint accepts (last : option M) (ups : list M) (obs : list M) : bool :=
+  Fixpoint accepts (base last : option M) (ups : list M) (obs : list M) : bool :=
     match ups with
     | [] => match obs with [] => true | _ => false end
     | v :: r =>
         match obs with
-        | o :: obs' => if m_eqb o v then accepts (Some v) r obs' else unchanged last v && accepts last r obs
-        | [] => unchanged last v && accepts last r []
+        | o :: obs' => if m_eqb o v then accepts base (Some v) r obs' else unchanged base last v && accepts base last r obs
+        | [] => unchanged base last v && accepts base last r []
         end
     end.
 
@@ -126,10 +130,10 @@ Section Trace.
           let current := option_map (pm k) cur in
           status_eqb (snd o) (if cancelled then Some 1 else None) &&
           forallb (fun x => String.eqb (fst x) name) (fst o) &&
-          (if uo then accepts (match equiv with Some _ => None | None => current end) ups (map snd (fst o))
+          (if uo then accepts current None ups (map snd (fst o))
            else match current, map snd (fst o) with
-                | Some c, first :: more => m_eqb first c && accepts (Some c) ups more
-                | None, more => accepts None ups more
+                | Some c, first :: more => m_eqb first c && accepts None (Some c) ups more
+                | None, more => accepts None None ups more
                 | Some _, [] => false
                 end)
         else match fst o with [] => status_eqb (snd o) (Some 5) | _ => false end
